@@ -99,9 +99,11 @@ def run(ctx):
                 paired = any(x['k'] == 'call' and x.get('name') == 'Pool::EdgeScheduled' for x in blk)
                 ctx.check('C06.R1', paired, f.name, 'ready-push:without-EdgeScheduled', f.where(e),
                           'push onto the ready queue in %s is accompanied by Pool::EdgeScheduled' % f.name)
-                ctx.check('C06.R1', f.name in ('Plan::ScheduleWork', 'Pool::RetrieveReadyEdges'),
+                # (which Plan / Pool method pushes is not the point: every such site is an admission site and has to satisfy the
+                # pairing above and the typestate rule C06.G1 below; nobody outside the plan may push)
+                ctx.check('C06.R1', f.cls in ('Plan', 'Pool'),
                           f.name, 'ready-push:unexpected-site', f.where(e),
-                          'ready-queue pushes happen only in Plan::ScheduleWork / Pool::RetrieveReadyEdges')
+                          'ready-queue pushes happen only inside Plan / Pool (%s)' % f.name)
     for f, e in calls_to(prog, 'Pool::EdgeScheduled'):
         blk = f.blocks[e['_b']]['ev']
         paired = any(x['k'] == 'call' and basename(x.get('name') or '') == 'push' and
